@@ -171,6 +171,11 @@ func runControls(dir string) error {
 		_, bad := staleDestinations(fns[n])
 		expect("decode-destination", n, len(bad) > 0)
 	}
+	// element pointers across append
+	for _, n := range []string{"goodCursorRetaken", "badCursorStale"} {
+		_, bad := staleElementPointers(fns[n])
+		expect("stale-element-pointer", n, len(bad) > 0)
+	}
 	// PANICREACH
 	for _, n := range []string{"GoodTotal", "BadReachesPanic"} {
 		reach := eng.ReachFrom(p, []*ssa.Function{fns[n]})
